@@ -146,9 +146,10 @@ Print Assumptions exec_preserves_shared_installed.
 Print Assumptions history_independent_installed.
 Print Assumptions history_pointwise_independent_installed.
 
-(* with nothing installed the extended walker is the walker of the theorems above: on every node, fuel and state *)
+(* with nothing installed and no message bundle the extended walker is the walker of the theorems above: on every
+   node, fuel and state *)
 Theorem nothing_installed_is_the_walker :
-  forall cf fuel n st, walk_x cf no_ext fuel n st = walk cf fuel n st.
+  forall cf, c_msgs cf = None -> forall fuel n st, walk_x cf no_ext fuel n st = walk cf fuel n st.
 Proof. exact walk_x_no_ext. Qed.
 Print Assumptions nothing_installed_is_the_walker.
 
